@@ -7,6 +7,8 @@
 (* density rho, the nodes start at 0, end at 1, increase strictly and      *)
 (* satisfy |E(t_i) - i/N| <= 1/64 (rounding error of the observation      *)
 (* times the largest density ratio in the catalogue is below that).        *)
+(* DenseEdgesGrid has no polynomial density: there the observation carries *)
+(* the measured mass of every interval, which must be 1/N each.            *)
 (***************************************************************************)
 EXTENDS RatPoly, Json, IOUtils, TLC, FiniteSets
 Obs == ndJsonDeserialize(IOEnv.TRACE_FILE)
@@ -23,7 +25,12 @@ Equidistributed ==
      /\ Eq(Node(o, 1), Zero) /\ Eq(Node(o, N + 1), One)
      /\ \A k \in 1..N : Less(Node(o, k), Node(o, k + 1))
      \* arithmetic beyond 32 bits is inconclusive for that node, never a verdict
-     /\ \A k \in 1..N + 1 : LET dlt == AbsR(Sub(E(o, Node(o, k)), Q(k - 1, N))) IN IsBad(dlt) \/ Leq(dlt, Q(1, 64))
+     /\ IF "mass" \in DOMAIN o
+        \* densities without a polynomial form (DenseEdgesGrid: a smoothed interpolant): the observation carries, per interval,
+        \* the measured share of the density's mass (quadrature of the grid object's own density between the observed nodes)
+        THEN /\ Len(o.mass) = N
+             /\ \A k \in 1..N : Leq(AbsR(Sub(Q(o.mass[k][1], o.mass[k][2]), Q(1, N))), Q(1, 256))
+        ELSE \A k \in 1..N + 1 : LET dlt == AbsR(Sub(E(o, Node(o, k)), Q(k - 1, N))) IN IsBad(dlt) \/ Leq(dlt, Q(1, 64))
 Verdict == TLCSet(1, TLCGet(1) @@ (i :> Equidistributed))
 Post == /\ \A k \in DOMAIN TLCGet(1) : PrintT(<<"DENSITY", Obs[k].id, TLCGet(1)[k]>>)
         /\ Cardinality(DOMAIN TLCGet(1)) = Len(Obs)
